@@ -74,11 +74,12 @@ Proof.
 Qed.
 
 (* options a unit's guards, `enabled`/`ignore` handling and probes query *)
-Definition probe_opts (p : probe) : list string :=
+Fixpoint probe_opts (p : probe) : list string :=
   match p with
   | PAlways _ => []
   | PGt _ o | PGe _ o | PLe _ o | PNotIn _ o | PSwitchOn _ o | PSwitchOff _ o => [o]
   | PRange _ a mx => [a; mx]
+  | POr a b | PAnd a b => probe_opts a ++ probe_opts b
   end.
 Definition gopt (g : grow) : string := fst (fst g).
 Definition queried (gs : list grow) (probes : list probe) : list string :=
@@ -122,18 +123,26 @@ Record relevant_off (q : quirks) (c : case) : Prop := {
   r_shadow : has q "invalid_top_level_value_shadowed_by_language_block" = false
             \/ (forall k raw, spec_selected c = LDoc k raw ->
                  guard_status (doc_opts (c_unit c)) (doc_guards (c_unit c)) (spec_res_top c (section_of (c_unit c) raw)) = StOk);
+  r_unval : has q (fl "language_block_value_not_validated" (c_unit c)) = false;
+  r_nm_sect : has q (fl "non_mapping_section_crashes" (c_unit c)) = false;
+  r_nm_lang : has q "non_mapping_language_block_crashes" = false
+              \/ (c_overrides c = []
+                  /\ forall k raw, spec_selected c = LDoc k raw -> forall l, nonmap (get l (section_of (c_unit c) raw)) = false);
 }.
 
 Lemma in_flags_unit kind u :
-  In kind ["section_not_read"; "enabled_option_missing"; "whole_config_fallback"; "language_override_ignored"] ->
+  In kind ["section_not_read"; "enabled_option_missing"; "whole_config_fallback"; "language_override_ignored";
+           "language_block_value_not_validated"; "non_mapping_section_crashes"] ->
   In u units -> In (fl kind u) all_flags.
 Proof.
   intros Hk Hu. unfold all_flags. rewrite !in_app_iff. cbn [In] in Hk.
-  destruct Hk as [<-|[<-|[<-|[<-|[]]]]].
+  destruct Hk as [<-|[<-|[<-|[<-|[<-|[<-|[]]]]]]].
   - left. now apply in_map.
   - right; left. now apply in_map.
   - right; right; left. now apply in_map.
   - right; right; right; left. now apply in_map.
+  - do 6 right. left. now apply in_map.
+  - do 7 right. now apply in_map.
 Qed.
 
 Lemma off_relevant q c : flags_off q -> case_good c = true -> relevant_off q c.
@@ -144,10 +153,10 @@ Proof.
       "global_config_option_ignored"; "dry_config_option_merges_section_only";
       "pyproject_unparsable_swallowed"; "wrong_type_swallowed";
       "language_block_error_retried_without_language"; "invalid_top_level_value_shadowed_by_language_block";
-      "thailint_json_is_not_a_root_marker"] -> has q f = false).
-  { intros f Hf. apply H. unfold all_flags. rewrite !in_app_iff. do 5 right. exact Hf. }
+      "thailint_json_is_not_a_root_marker"; "non_mapping_language_block_crashes"] -> has q f = false).
+  { intros f Hf. apply H. unfold all_flags. rewrite !in_app_iff. do 5 right. left. exact Hf. }
   constructor; try (apply H; apply in_flags_unit; [cbn [In]; tauto|exact Gu]);
-    try (left; apply P; cbn [In]; tauto).
+    try (left; apply P; cbn [In]; tauto); try (apply P; cbn [In]; tauto).
   (* the command flag *)
   apply orb_true_iff in Gc. destruct Gc as [E|E].
   - left. apply String.eqb_eq in E. rewrite E. apply H. unfold all_flags. rewrite !in_app_iff.
@@ -379,9 +388,12 @@ Qed.
 Lemma fires_ext opts r1 r2 ms p :
   (forall o, In o (probe_opts p) -> r1 o = r2 o) -> fires opts r1 ms p = fires opts r2 ms p.
 Proof.
-  intros H. destruct p; cbn [fires probe_opts] in *; try reflexivity;
+  induction p as [m|m opt|m opt|m opt|m opt|m allowed mx|m opt|m opt|a IHa b IHb|a IHa b IHb];
+    intros H; cbn [fires probe_opts] in *; try reflexivity;
     try (rewrite (H opt) by (cbn [In]; tauto); reflexivity).
-  rewrite (H allowed), (H mx) by (cbn [In]; tauto). reflexivity.
+  - rewrite (H allowed), (H mx) by (cbn [In]; tauto). reflexivity.
+  - rewrite IHa, IHb; [reflexivity| |]; intros o Ho; apply H; apply in_or_app; tauto.
+  - rewrite IHa, IHb; [reflexivity| |]; intros o Ho; apply H; apply in_or_app; tauto.
 Qed.
 
 Lemma filter_ext_in' {A} (f g : A -> bool) l : (forall a, In a l -> f a = g a) -> filter f l = filter g l.
@@ -450,6 +462,9 @@ Proof.
     cbn [row_good meta_src forallb]. now rewrite String.eqb_refl.
 Qed.
 
+Lemma existsb_false {A} (f : A -> bool) l : (forall a, f a = false) -> existsb f l = false.
+Proof. intros H. induction l as [|x xs IH]; cbn [existsb]; [reflexivity|]. now rewrite H, IH. Qed.
+
 (* ------------------------------------------------------------------ main theorem *)
 Definition lang_good (c : case) : bool := smem (c_lang c) all_languages.
 
@@ -461,6 +476,21 @@ Proof.
   destruct (spec_selected c) as [|k raw] eqn:S; [reflexivity|].
   rewrite (repo_patterns_spec q c k raw R S).
   destruct (existsb _ _); [reflexivity|].
+  unfold section_crash, lang_unvalidated.
+  rewrite (r_unval q c R), (r_nm_sect q c R). cbn [andb orb].
+  assert (Esect : as_map (get (norm_key (c_unit c)) (normalize_top raw)) = section_of (c_unit c) raw).
+  { unfold section_of. now rewrite get_normalize. }
+  assert (Hsec := lookup_row_section q (c_unit c) _ (r_section q c R) (r_whole q c R)
+             (normal_apply_overrides q (c_cmd c) (c_overrides c) _ (normalize_normal raw))).
+  rewrite Hsec.
+  assert (Hlc : lang_block_crash q (c_unit c)
+                  (as_map (get (norm_key (c_unit c)) (apply_overrides q cli_overrides (c_cmd c) (c_overrides c) (normalize_top raw))))
+                  (c_lang c) = false).
+  { unfold lang_block_crash. destruct (r_nm_lang q c R) as [E|[Hov Hb]]; [now rewrite E|].
+    rewrite Hov. cbn [apply_overrides fold_left]. rewrite Esect.
+    rewrite (Hb k raw S (c_lang c)), andb_false_r. cbn [orb].
+    rewrite existsb_false; [apply andb_false_r|]. intros l. apply (Hb k raw S). }
+  rewrite Hlc.
   pose proof G as G'. unfold case_good in G'. apply andb_true_iff in G'. destruct G' as [Gu Gc].
   apply smem_In in Gu. apply smem_In in L.
   (* tables *)
@@ -476,13 +506,9 @@ Proof.
       - destruct (r_retry q c R) as [E|T]; [left; unfold retries; now rewrite E|right; exact (T k raw S)].
       - destruct (r_types q c R) as [E|T]; [left; unfold swallow_types; now rewrite E|right; exact (T k raw S)].
       - destruct (r_shadow q c R) as [E|T]; [left; unfold checks_top; now rewrite E|right; exact (T k raw S)]. }
-  assert (Esect : as_map (get (norm_key (c_unit c)) (normalize_top raw)) = section_of (c_unit c) raw).
-  { unfold section_of. now rewrite get_normalize. }
   assert (Elang : lang_opts q (c_unit c) = doc_lang_opts (c_unit c)).
   { unfold lang_opts. rewrite (r_lang q c R). apply (F_lang _ Gu). }
-  assert (Hsec := lookup_row_section q (c_unit c) _ (r_section q c R) (r_whole q c R)
-             (normal_apply_overrides q (c_cmd c) (c_overrides c) _ (normalize_normal raw))).
-  rewrite Hsec, Elang.
+  rewrite Elang.
   assert (Hnl : forall o,
      In o (queried (doc_guards (c_unit c)) (unit_probes (c_unit c))) -> ~ In o all_languages).
   { intros o Ho. pose proof (proj1 (forallb_forall _ _) (F_queried _ Gu) o Ho) as E. cbn beta in E.
